@@ -642,6 +642,39 @@ func (b *builder) addFixed() {
 		Method{Name: "ReadFrom", Params: []Param{{"r", pkgT(ioD, "Reader")}}, Results: []Param{{"", i64}, {"", er}}},
 		Method{Name: "SetTags", Params: []Param{{"tags", slice(str)}}},
 		Method{Name: "Put", Params: []Param{{"", bytesT}}, Results: []Param{{"", er}}})
+	// assorted method shapes: name ending in Func, non-ASCII and one-letter method names, many parameters and
+	// results, underscores and digits, pointer/any/struct values, a named basic type and a chan of empty structs
+	anyT2 := basic("any")
+	stA := &T{Kind: KStruct, Fields: []Field{{Name: "A", Type: in}}}
+	stB := &T{Kind: KStruct, Fields: []Field{{Name: "B", Type: str}}}
+	misc := []Method{
+		{Name: "HandleFunc", Params: []Param{{"pattern", str}, {"handler", &T{Kind: KFunc, Params: []*T{in}, Results: []*T{er}}}}},
+		{Name: "A", Params: []Param{{"b", in}}},
+		{Name: "Many", Params: []Param{{"a", in}, {"b", str}, {"c", bl}, {"d", basic("float64")}, {"e", slice(in)}, {"f", &T{Kind: KMap, Key: str, Elem: in}}}, Results: []Param{{"", in}, {"", str}, {"", er}}},
+		{Name: "Wait", Params: []Param{{"d", pkgT(tm0(b), "Duration")}}, Results: []Param{{"", &T{Kind: KChan, Dir: 2, Elem: &T{Kind: KStruct}}}}},
+		{Name: "Get_Value2", Params: []Param{{"key_1", str}}, Results: []Param{{"value_1", anyT2}}},
+		{Name: "Ptr", Params: []Param{{"p", ptr(in)}}, Results: []Param{{"", ptr(str)}}},
+		{Name: "Iface", Params: []Param{{"v", anyT2}}, Results: []Param{{"", anyT2}}},
+		{Name: "StructVal", Params: []Param{{"s", stA}}, Results: []Param{{"", stB}}},
+		{Name: "OnlyErr", Results: []Param{{"", er}}},
+		{Name: "OnlyBool", Params: []Param{{"", str}}, Results: []Param{{"", bl}}},
+	}
+	if b.hz.NonASCIIName {
+		misc = append(misc, Method{Name: "Überprüfen", Params: []Param{{"wert", str}}, Results: []Param{{"", bl}}})
+	}
+	mk("FxMisc", misc...)
+	var wide []Method
+	for k := 0; k < 25; k++ {
+		m := Method{Name: fmt.Sprintf("M%02d", k), Params: []Param{{"x", in}}}
+		if k%3 == 0 {
+			m.Results = []Param{{"", in}}
+		}
+		if k%5 == 0 {
+			m.Params = nil
+		}
+		wide = append(wide, m)
+	}
+	mk("FxWide", wide...)
 	// only result-less methods
 	mk("FxNotifier",
 		Method{Name: "Notify", Params: []Param{{"topic", str}, {"payload", bytesT}}},
@@ -971,3 +1004,5 @@ func NewMatrixTree(kind string, hz Hazards) *Tree {
 	b.render()
 	return t
 }
+
+func tm0(b *builder) *Dep { return b.std("time") }
